@@ -338,9 +338,10 @@ FORBID = {
 }
 
 
-def rule_R4(res, prog, cg, c):
+def rule_R4(res, prog, cg, c, prop=None, rid="C02.R4", directions=("open", "seal"), hmac=True):
+    PROP_ = prop or PROP
     from sa.bufsrc import BufSrc
-    res.rule("C02.R4", "binding completeness: the AAD / nonce handed to every AEAD primitive in the record layer and the "
+    res.rule(rid, "binding completeness: the AAD / nonce handed to every AEAD primitive in the record layer and the "
                        "HMAC input depend on the sequence number, record type, version, length (per RFC) and on no "
                        "state of the opposite direction")
     bs = BufSrc(prog, cg)
@@ -356,6 +357,8 @@ def rule_R4(res, prog, cg, c):
             continue
         ver = "tls13" if r["type"] == cs.get("TLS13") else "tls12"
         for direction, slot in (("open", "decrypt"), ("seal", "encrypt")):
+            if direction not in directions:
+                continue
             fname = r[slot]
             if not isinstance(fname, str) or (fname, direction) in seen:
                 continue
@@ -389,16 +392,16 @@ def rule_R4(res, prog, cg, c):
                             what.append("does not depend on %s" % ", ".join(".".join(map(str, m[1:])) if m[0] == "F" else "parameter %d" % m[1] for m in missing))
                         if crossed:
                             what.append("depends on opposite-direction state %s" % ", ".join(".".join(m[1:]) for m in crossed))
-                        f = Finding(PROP, "C02.R4", fname, "%s %s: %s" % (direction, role, what[0].split(" on ")[0] + " on " + what[0].split(" on ")[1]),
+                        f = Finding(PROP_, rid, fname, "%s %s: %s" % (direction, role, what[0].split(" on ")[0] + " on " + what[0].split(" on ")[1]),
                                     "the %s passed to %s in %s %s" % (role, call.get("fn"), fname, "; ".join(what)),
                                     file=fn.relfile, line=ln,
                                     detail={"roots": sorted(map(str, roots))})
-                    res.instance("C02.R4", "%s (%s %s) %s argument of %s at line %s" % (
+                    res.instance(rid, "%s (%s %s) %s argument of %s at line %s" % (
                         fname, ver, direction, role, call.get("fn"), ln), not (missing or crossed), finding=f)
             if not found:
                 raise AnalysisBroken("C02.R4: %s no longer calls a known AEAD primitive" % fname)
     # HMAC input
-    for hname in ("tlsHMACSha1", "tlsHMACSha2"):
+    for hname in (("tlsHMACSha1", "tlsHMACSha2") if hmac else ()):
         for fn in prog.by_name.get(hname, []):
             roots = set()
             for b, ln, call in fn.calls():
@@ -414,9 +417,9 @@ def rule_R4(res, prog, cg, c):
             n += 1
             f = None
             if missing:
-                f = Finding(PROP, "C02.R4", hname, "HMAC input incomplete",
+                f = Finding(PROP_, rid, hname, "HMAC input incomplete",
                             "the record MAC input in %s does not depend on %s" % (hname, missing),
                             file=fn.relfile, line=fn.line)
-            res.instance("C02.R4", "%s HMAC input covers seq, type, version, length, data, key" % hname,
+            res.instance(rid, "%s HMAC input covers seq, type, version, length, data, key" % hname,
                          not missing, finding=f)
-    res.floor("C02.R4", 8)
+    res.floor(rid, 8 if len(directions) == 2 else 4)
